@@ -61,31 +61,32 @@ func unwrapQuery(n ast.Node) ast.Node {
 	return n
 }
 
-// roundTripNode re-parses n.SQL() with entry e and compares; returns "" if fine, else a diagnosis.
-func roundTripNode(n ast.Node, e string) string {
+// roundTripNode re-parses n.SQL() with entry e and compares; returns "" if fine, else a diagnosis
+// (and, when the failure is a tree difference, its context-free signature).
+func roundTripNode(n ast.Node, e string) (diag, diffSig string) {
 	s, pv := SQLOf(n)
 	if pv != nil {
-		return ""
+		return "", ""
 	}
 	p := Parse(e, s)
 	if p.Panic != nil {
-		return fmt.Sprintf("re-parse of %q panics: %v", s, p.Panic)
+		return fmt.Sprintf("re-parse of %q panics: %v", s, p.Panic), ""
 	}
 	if p.Err != nil {
-		return fmt.Sprintf("SQL() = %q is rejected: %v", s, p.Err)
+		return fmt.Sprintf("SQL() = %q is rejected: %v", s, p.Err), ""
 	}
 	got := p.Root()
 	if e == "query" {
 		got = unwrapQuery(got)
 	}
 	if d := astx.Equiv(n, got, false); len(d) > 0 {
-		return fmt.Sprintf("SQL() = %q parses to a different tree: %s", s, d[0])
+		return fmt.Sprintf("SQL() = %q parses to a different tree: %s", s, d[0]), d[0].Sig()
 	}
-	return ""
+	return "", ""
 }
 
 // rootCause finds the deepest stand-alone parseable node whose own round trip fails.
-func rootCause(roots []ast.Node) (typ, diag string) {
+func rootCause(roots []ast.Node) (typ, diag, diffSig string) {
 	for _, root := range roots {
 		infos := astx.Nodes(root)
 		for i := len(infos) - 1; i >= 1; i-- {
@@ -97,12 +98,12 @@ func rootCause(roots []ast.Node) (typ, diag string) {
 			if e == "" {
 				continue
 			}
-			if d := roundTripNode(in.Node, e); d != "" {
-				return astx.TypeName(in.Node), d
+			if d, ds := roundTripNode(in.Node, e); d != "" {
+				return astx.TypeName(in.Node), d, ds
 			}
 		}
 	}
-	return "", ""
+	return "", "", ""
 }
 
 // CheckC01 observes one case; it reports whether the input was accepted and the round trip held.
@@ -131,11 +132,15 @@ func CheckC01(c *Ctx, entry, input string) (accepted, held bool) {
 		return true, false
 	}
 	if p2.Err != nil {
-		typ, diag := rootCause(p.Roots)
+		typ, diag, ds := rootCause(p.Roots)
 		if typ == "" {
 			typ, diag = astx.TypeName(p.Roots[0]), fmt.Sprintf("SQL() = %q is rejected: %v", s1, p2.Err)
 		}
-		c.Violate("c01:reparse-error:"+typ, entry, input, diag)
+		if ds != "" {
+			c.Violate("c01:astdiff:"+ds, entry, input, diag)
+		} else {
+			c.Violate("c01:reparse-error:"+typ, entry, input, diag)
+		}
 		return true, false
 	}
 	held = true
@@ -151,7 +156,7 @@ func CheckC01(c *Ctx, entry, input string) (accepted, held bool) {
 	}
 	s2, pv2 := joinSQL(p2.Roots)
 	if pv2 == nil && s2 != s1 {
-		typ, _ := rootCause(p.Roots)
+		typ, _, _ := rootCause(p.Roots)
 		if typ == "" {
 			typ = astx.TypeName(p.Roots[0])
 		}
